@@ -27,6 +27,7 @@ type ghostSet struct {
 
 type LoopInfo struct {
 	Ordinal    int
+	Progress   []SpecClause
 	Invariants []SpecClause
 	Decreases  []ast.Expr
 }
@@ -42,6 +43,7 @@ type FuncInfo struct {
 	GhostSets        []ghostSet
 	Assumes          []SpecClause
 	Ensures          []SpecClause
+	AssumedEns       []SpecClause
 	Modifies         []ast.Expr
 	DynPreserves     []ast.Expr
 	HasMod           bool
@@ -325,6 +327,12 @@ func (p *Prog) readMarkerPrefix(fi *FuncInfo, info *types.Info, list []ast.Stmt,
 				fi.Assumes = append(fi.Assumes, SpecClause{Label: strLit(call.Args[0], info), Expr: closureExpr(call.Args[1])})
 			case "__ensures":
 				fi.Ensures = append(fi.Ensures, SpecClause{Label: strLit(call.Args[0], info), Expr: closureExpr(call.Args[1])})
+			case "__assumedensures":
+				fi.AssumedEns = append(fi.AssumedEns, SpecClause{Label: strLit(call.Args[0], info), Expr: closureExpr(call.Args[1])})
+			case "__progress":
+				if li != nil {
+					li.Progress = append(li.Progress, SpecClause{Label: strLit(call.Args[0], info), Expr: closureExpr(call.Args[1])})
+				}
 			case "__invariant":
 				if li != nil {
 					li.Invariants = append(li.Invariants, SpecClause{Label: strLit(call.Args[0], info), Expr: closureExpr(call.Args[1])})
